@@ -27,11 +27,12 @@ pub static PROP: Prop = Prop {
     fixed,
     replay: None,
     breadcrumb: true,
+    fuzz: &[],
 };
 
 fn budget(t: Tier) -> Budget {
     Budget {
-        cases: t.pick(30_000, 600_000),
+        cases: t.pick(100_000, 1_200_000),
         max_len: 400,
         shards: 16,
         dual_profile: false,
